@@ -240,6 +240,10 @@ func (db *SingleBucketBackend) ensureMeta(
 }
 
 func (db *SingleBucketBackend) HeadObject(bucketName, objectName string) (*gofakes3.Object, error) {
+	if !keyInsideBucket(objectName) {
+		return nil, gofakes3.KeyNotFound(objectName)
+	}
+
 	if bucketName != db.name {
 		return nil, gofakes3.BucketNotFound(bucketName)
 	}
@@ -272,6 +276,10 @@ func (db *SingleBucketBackend) HeadObject(bucketName, objectName string) (*gofak
 }
 
 func (db *SingleBucketBackend) GetObject(bucketName, objectName string, rangeRequest *gofakes3.ObjectRangeRequest) (obj *gofakes3.Object, err error) {
+	if !keyInsideBucket(objectName) {
+		return nil, gofakes3.KeyNotFound(objectName)
+	}
+
 	if bucketName != db.name {
 		return nil, gofakes3.BucketNotFound(bucketName)
 	}
@@ -334,6 +342,9 @@ func (db *SingleBucketBackend) PutObject(
 	meta map[string]string,
 	input io.Reader, size int64,
 ) (result gofakes3.PutObjectResult, err error) {
+	if !keyInsideBucket(objectName) {
+		return result, errKeyNotInsideBucket(objectName)
+	}
 
 	if bucketName != db.name {
 		return result, gofakes3.BucketNotFound(bucketName)
@@ -461,6 +472,11 @@ func (db *SingleBucketBackend) DeleteObject(bucketName, objectName string) (resu
 }
 
 func (db *SingleBucketBackend) deleteObjectLocked(bucketName, objectName string) error {
+	if !keyInsideBucket(objectName) {
+		// such a key cannot have been stored: nothing to delete
+		return nil
+	}
+
 	// S3 does not report an error when attemping to delete a key that does not exist, so
 	// we need to skip IsNotExist errors.
 	if err := db.fs.Remove(filepath.FromSlash(objectName)); err != nil && !os.IsNotExist(err) {
